@@ -125,6 +125,8 @@ Clauses(pre, o, x) ==
         \* descriptor and its child until some later, unrelated allocation (harness: descriptors counted after the
         \* last reference went and again after gc.collect(), automatic collection switched off in between)
         << ~("cycle" \in DOMAIN o /\ o.cycle), "C10:dropped-object-released-only-by-the-cycle-collector" >>,
+        \* fdspawn / SocketSpawn wrap a descriptor that belongs to the caller: dropping the wrapper leaves it as it was
+        << (o.op = "Del" /\ ~pty /\ ~child) => o.fd = pre.fd, "C10:dropped-wrapper-closed-the-caller's-descriptor" >>,
         \* once this object's own waitpid() has collected the child, its pid is a stale handle: no signal goes to it
         << ~("kar" \in DOMAIN o /\ o.kar), "C10:signal-sent-to-the-pid-of-a-reaped-child" >>,
         << (there /\ o.closed) => o.fd # "open", "C10:fd-leak" >>,
